@@ -139,6 +139,18 @@ func debugDump(repo, spec string) {
 		fmt.Println("not found")
 		return
 	}
+	if os.Getenv("LC_SIGS") != "" {
+		for i := 0; i < fn.Signature.Results().Len(); i++ {
+			for _, sg := range retSigs(fn, i) {
+				if os.Getenv("LC_SIGS") == "go" {
+					fmt.Printf("\t\t%q,\n", normSig(sg))
+				} else {
+					fmt.Printf("SIG[%d] %s\n", i, sg)
+				}
+			}
+		}
+		return
+	}
 	for _, f := range Anons(fn) {
 		fmt.Printf("FUNC %s\n", f.String())
 		for _, b := range f.Blocks {
